@@ -100,6 +100,7 @@ def gen_assertions(ref, enums, consts):
         A.append(('codata', 'UnitConverter %s agrees with CODATA/SI %s to 4 significant digits' % (expr, r), 'uc.' + expr if expr.startswith('convert') else expr, val(r), tol4))
     for expr, r in ref['constants_vs']:
         A.append(('constants', 'conv:: %s agrees with %s to 4 significant digits' % (expr, r), expr, val(r), tol4 if ('uc.' in r or r in cod) else tol4))
+    A += lammps_field_assertions(ref)
     for p in ref['io_factor_pairs']:
         for side in ('reader', 'writer'):
             s = ccv.strip_map(open(os.path.join(core.REPO, p[side])).read())
@@ -107,6 +108,47 @@ def gen_assertions(ref, enums, consts):
             if n != p[side + '_count']:
                 raise core.Undecided('extraction drift: %s: unit factor /%s/ found %d times, expected %d' % (p[side], p[side + '_re'], n, p[side + '_count']))
         A.append(('io', '%s: reader factor * writer factor == 1' % p['what'], '(%s) * (%s)' % (p['reader_expr'], p['writer_expr']), '1.0', tol))
+    return A
+
+
+def lammps_field_assertions(ref):
+    """unit contract of every per-field statement of LAMMPSDumpReader::ReadAtoms: the value read from the file is multiplied by exactly the
+    Angstrom -> nm (positions), nothing but the box length already in nm (scaled positions), or kcal/mol/Angstrom -> kJ/mol/nm (forces) factor.
+    The right-hand sides are products of the file value (checked syntactically), so they are evaluated at value 1 and box length 3."""
+    rel = 'csg/src/libcsg/modules/io/lammpsdumpreader.cc'
+    src = ccv.strip_map(open(os.path.join(core.REPO, rel)).read())
+    st = re.findall(r'fields\[j\]\s*==\s*"\s*"\)\s*\{\s*b->(Pos|Vel|F)\(\)\.([xyz])\(\)\s*=\s*([^;]+);', src)
+    # strip_map blanks string literals: recover the field names from the unstripped text at the same positions
+    raw = open(os.path.join(core.REPO, rel)).read()
+    items = []
+    for m in re.finditer(r'fields\[j\]\s*==\s*"(\w+)"\)\s*\{\s*b->(Pos|Vel|F)\(\)\.([xyz])\(\)\s*=\s*([^;]+);', raw):
+        if src[m.start():m.start() + 6] != 'fields':
+            continue        # inside a comment
+        rhs = re.sub(r'//.*', '', m.group(4)).strip()
+        items.append((m.group(1), m.group(2), m.group(3), rhs))
+    if len(items) != 15:
+        raise core.Undecided('extraction drift: %d per-field statements in LAMMPSDumpReader::ReadAtoms, contract knows 15' % len(items))
+    nbox = len(re.findall(r'top\.setBox\(\s*m\s*\*\s*tools::conv::ang2nm\s*\)', src))
+    if nbox != 1:
+        raise core.Undecided('extraction drift: ReadBox no longer stores the box as m * conv::ang2nm (%d matches)' % nbox)
+    META['functions'].append({'name': 'LAMMPSDumpReader::ReadAtoms (per-field unit statements)', 'file': rel, 'rules_fired': [{'rule': 'R-field (fields[j] == "f") { b->X().c() = EXPR; }', 'fired': len(items)}]})
+    A = []
+    tol4 = ref['rel_tol_4sig']
+    for field, kind, comp, rhs in items:
+        if rhs.count('stod(*itok)') != 1 or re.search(r'[+\-]', rhs.replace('->', '')):
+            raise core.Undecided('extraction drift: right-hand side of field %s is not a product of the file value: %s' % (field, rhs))
+        e = rhs.replace('stod(*itok)', '1.0')
+        e = re.sub(r'\bm\(\s*(\d)\s*,\s*\1\s*\)', '3.0', e)
+        e = e.replace('tools::conv::', '')
+        if kind == 'Pos' and field.endswith('s'):
+            exp, what = '3.0', 'scaled coordinate * box length (the box is stored in nm): no further length factor'
+        elif kind == 'Pos':
+            exp, what = 'uc.convert(DistanceUnit::angstroms, DistanceUnit::nanometers)', 'Angstrom -> nm'
+        elif kind == 'F':
+            exp, what = 'uc.convert(MolarForceUnit::kilocalories_per_mole_angstrom, MolarForceUnit::kilojoules_per_mole_nanometer)', 'kcal/mol/Angstrom -> kJ/mol/nm'
+        else:
+            continue        # velocities: only reader/writer reciprocity is claimed (time unit of the dump is not fixed by the format)
+        A.append(('io', 'lammps dump field %s: factor applied to the file value == %s' % (field, what), e, exp, tol4))
     return A
 
 
